@@ -341,6 +341,30 @@ Definition moving_funds_ops (targets : Z) : list op := [OPkhIn 1 true; OPkhOut t
 Definition moved_funds_sweep_ops (has_main_utxo : bool) : list op :=
   [OPkhIn (if has_main_utxo then 2 else 1) true; OPkhOut 1 true].
 
+Inductive caller :=
+| CallSweep (deposits : Z) | CallRedemption (redeemers : list oshape)
+| CallMoving (targets : Z) | CallMovedSweep (has_main_utxo : bool).
+Definition caller_ops (c : caller) : list op :=
+  match c with
+  | CallSweep n => sweep_ops n
+  | CallRedemption l => redemption_ops l
+  | CallMoving n => moving_funds_ops n
+  | CallMovedSweep b => moved_funds_sweep_ops b
+  end.
+Definition op_eqb (a b : op) : bool :=
+  match a, b with
+  | OPkhIn c w, OPkhIn c' w' | OPkhOut c w, OPkhOut c' w' | OShOut c w, OShOut c' w' =>
+      (c =? c')%Z && Bool.eqb w w'
+  | OShIn c l w, OShIn c' l' w' => (c =? c')%Z && (l =? l')%Z && Bool.eqb w w'
+  | _, _ => false
+  end.
+Fixpoint ops_eqb (a b : list op) : bool :=
+  match a, b with
+  | [], [] => true
+  | x :: a', y :: b' => op_eqb x y && ops_eqb a' b'
+  | _, _ => false
+  end.
+
 (* ================================================================== correspondence cases *)
 (* run-length groups of identical real inputs: (kind, redeem length, first redeem byte — it
    matters only for one-byte scripts —, signature length with hash type, public key length,
@@ -369,6 +393,8 @@ Record real_obs := { r_base : N; r_total : N; r_vsize : N }.
 Record sig_obs := { so_r : Z; so_s : Z; so_len : N }.
 Record case := {
   c_items : list item;
+  c_caller : option caller;       (* Some: the estimate was obtained through this pkg/tbtcpg fee
+                                     estimator at 1 sat/vbyte; the ops are the ones it must issue *)
   c_est : eres;                   (* VirtualSize() of the real estimator on the ops *)
   c_real : option real_obs;       (* Some: the builder produced a signed transaction; its measured sizes *)
   c_sigs : list sig_obs
@@ -437,6 +463,10 @@ Definition sig_agrees (s : sig_obs) : bool :=
   len (der_serialize (Z.to_N (so_r s)) (Z.to_N (so_s s))) + 1 =? so_len s.
 Definition agree (c : case) : bool :=
   eres_eqb (c_est c) (estimate_fast (map it_op (c_items c)))
+  && match c_caller c with
+     | Some k => ops_eqb (map it_op (c_items c)) (caller_ops k)
+     | None => true
+     end
   && match c_real c with
      | Some r =>
          let z := real_sizes (c_items c) in
